@@ -87,7 +87,7 @@ def cmd_string(st):
 def rsp_string(st):
     if not st["rsp"]:
         return ""
-    return st["rsp_content"].replace("$in_newline", "\n".join(st["ins"])).replace("$in", " ".join(st["ins"])).replace(
+    return st["rsp_content"].replace("$empty", "").replace("$in_newline", "\n".join(st["ins"])).replace("$in", " ".join(st["ins"])).replace(
         "$out", " ".join(st["outs"]))
 
 
